@@ -191,6 +191,15 @@ ConstStep(ty, lit, checked) ==
   IF checked /\ ~Fits(ty, lit) THEN [ok |-> FALSE, stored |-> lit, meant |-> lit]
   ELSE [ok |-> TRUE, stored |-> lit, meant |-> lit]
 
+\* an integer literal where a value of enum E { ZERO = 0, ONE = 1, MINUS_ONE = -1, MIN = -2^31, MAX = 2^31 - 1 } is expected
+\* (ConstantInt.Link against an EnumSpec): it denotes the item that has exactly this value; Narrowed = the negative control,
+\* a comparison after conversion to 32 bits
+EnumItemValues == { LimbsOf("0"), LimbsOf("1"), LimbsOf("-1"), LimbsOf("-2147483648"), LimbsOf("2147483647") }
+Low32(l) == << (IF l[3] >= 32768 THEN 65535 ELSE 0), (IF l[3] >= 32768 THEN 65535 ELSE 0), l[3], l[4] >>     \* int32(x) sign-extended
+EnumValueStep(lit, narrowed) ==
+  IF narrowed THEN [ok |-> Low32(lit) \in EnumItemValues, stored |-> Low32(lit), meant |-> lit]
+  ELSE [ok |-> lit \in EnumItemValues, stored |-> lit, meant |-> lit]
+
 \* the property for one accepted number
 NumberOK(r, ty) == r.ok => (r.stored = r.meant /\ Fits(ty, r.meant))
 =============================================================================
